@@ -76,7 +76,7 @@ theorem finishGen_demes {t1 t' : T} {id : Id} {lc : LevelCfg} {q : List Id} {don
     (h : finishGen t1 id lc q done pending gen g lscEnv = .ok t') :
     ∃ f, Grow f ∧ t'.demes = updFirst id f t1.demes ∧ t'.cfg = t1.cfg ∧ t'.metaepoch = t1.metaepoch ∧
       t'.levels = t1.levels ∧ t'.log = t1.log ∧ t'.refused = t1.refused ∧ t'.stacks = t1.stacks ∧
-      (t1.gscSeen = true → t'.gscSeen = true) := by
+      (t1.gscSeen = true → t'.gscSeen = true) ∧ (∀ d, (f d).counter = d.counter) := by
   unfold finishGen at h
   split at h
   · -- lhs / sobol
@@ -94,7 +94,7 @@ theorem finishGen_demes {t1 t' : T} {id : Id} {lc : LevelCfg} {q : List Id} {don
           subst h
           refine ⟨(fun d => { d with active := d.active && !(gv || lv) }) ∘
               (fun d => { d with hist := d.hist ++ [[gen]], active := d.active && true }),
-            (grow_deact _).comp (grow_append [gen] true), ?_, rfl, rfl, rfl, rfl, rfl, rfl, ?_⟩
+            (grow_deact _).comp (grow_append [gen] true), ?_, rfl, rfl, rfl, rfl, rfl, rfl, ?_, fun _ => rfl⟩
           · simp only [T.update, appendHist]
             exact updFirst_comp _ _ _ _ (fun _ => rfl)
           · intro hs; simp [T.update, appendHist, hs]
@@ -105,11 +105,11 @@ theorem finishGen_demes {t1 t' : T} {id : Id} {lc : LevelCfg} {q : List Id} {don
       split at h
       · simp only [Except.ok.injEq] at h
         subst h
-        exact ⟨_, grow_append _ false, rfl, rfl, rfl, rfl, rfl, rfl, rfl, by intro hs; simp [appendHist, T.update, hs]⟩
+        exact ⟨_, grow_append _ false, rfl, rfl, rfl, rfl, rfl, rfl, rfl, by intro hs; simp [appendHist, T.update, hs], fun _ => rfl⟩
       · split at h
         · simp only [Except.ok.injEq] at h
           subst h
-          refine ⟨bump 0, grow_bump 0, by simp [updFirst_bump_zero], rfl, rfl, rfl, rfl, rfl, rfl, fun hs => hs⟩
+          refine ⟨bump 0, grow_bump 0, by simp [updFirst_bump_zero], rfl, rfl, rfl, rfl, rfl, rfl, fun hs => hs, fun _ => by simp [bump]⟩
         · split at h
           · simp at h
           · rename_i d2 hd2
@@ -120,7 +120,7 @@ theorem finishGen_demes {t1 t' : T} {id : Id} {lc : LevelCfg} {q : List Id} {don
               subst h
               refine ⟨(fun d => { d with active := d.active && !lv }) ∘
                   (fun d => { d with hist := d.hist ++ [pending ++ [gen]], active := d.active && true }),
-                (grow_deact _).comp (grow_append (pending ++ [gen]) true), ?_, rfl, rfl, rfl, rfl, rfl, rfl, ?_⟩
+                (grow_deact _).comp (grow_append (pending ++ [gen]) true), ?_, rfl, rfl, rfl, rfl, rfl, rfl, ?_, fun _ => rfl⟩
               · simp only [T.update, appendHist]
                 exact updFirst_comp _ _ _ _ (fun _ => rfl)
               · intro hs; simpa [T.update, appendHist] using hs
@@ -167,7 +167,7 @@ theorem stepGen_effect {t t' : T} {id : Id} {g : GenEnv} {l : Option Bool}
       split at h
       · simp at h
       · have e := evalReqs_effect hev
-        obtain ⟨f, hf, hd, hc, hm, hl, hlog, hr, _, hg⟩ := finishGen_demes h
+        obtain ⟨f, hf, hd, hc, hm, hl, hlog, hr, _, hg, _⟩ := finishGen_demes h
         obtain ⟨invs, hi1, _, hi3, _⟩ := e.log
         refine ⟨hc.trans e.cfg, hm.trans e.metaepoch, hl.trans e.levels, ?_, ?_, ?_,
           ⟨invs, by rw [hlog, hi1], fun i hi => by obtain ⟨a, _, lc, h1, h2⟩ := hi3 i hi; exact ⟨lc, a ▸ h1, h2⟩⟩⟩
@@ -403,10 +403,11 @@ theorem stepRound_effect {t t' : T} {ge : Option Bool} {renv : Sprout.Env} {news
     (h : stepRound t ge renv news = .ok t') :
     t'.cfg = t.cfg ∧ t'.metaepoch = t.metaepoch ∧ t.pc = .post ∧ t'.pc = .head ∧
     (t.gscSeen = true → t'.gscSeen = true) ∧ (t.refused = true → t'.refused = true) ∧
-    ((t'.demes = t.demes ∧ t'.gscSeen = true ∧ t'.log = t.log) ∨
+    ((t'.demes = t.demes ∧ t'.gscSeen = true ∧ t'.log = t.log ∧ t'.refused = t.refused) ∨
      (t.gscSeen = false ∧ t'.gscSeen = false ∧ gscEval t ge t.cfg.gsc = some false ∧
       ∃ seeds t1, Sprout.getSeeds (view t) renv t.cfg.mech = some seeds ∧
         SproutEffect t t1 (seeds.flatMap fun c => c.inds.map fun i => (c.deme, i)) ∧
+        doSprout t (seeds.flatMap fun c => c.inds.map fun i => (c.deme, i)) news = .ok t1 ∧
         t' = { updateHibernation t1 (seeds.map (·.deme)) with pc := .head })) := by
   unfold stepRound at h
   split at h
@@ -416,7 +417,7 @@ theorem stepRound_effect {t t' : T} {ge : Option Bool} {renv : Sprout.Env} {news
     · split at h
       · simp only [Except.ok.injEq] at h
         subst h
-        exact ⟨rfl, rfl, hpc, rfl, fun _ => rfl, fun hr => hr, Or.inl ⟨rfl, rfl, rfl⟩⟩
+        exact ⟨rfl, rfl, hpc, rfl, fun _ => rfl, fun hr => hr, Or.inl ⟨rfl, rfl, rfl, rfl⟩⟩
       · simp at h
     · rename_i hg
       split at h
@@ -435,7 +436,7 @@ theorem stepRound_effect {t t' : T} {ge : Option Bool} {renv : Sprout.Env} {news
             have se := doSprout_effect hds
             obtain ⟨f1, f2, f3, f4, f5, f6⟩ := updateHibernation_frame t1 (seeds.map (·.deme))
             refine ⟨by simp [f1, se.cfg], by simp [f2, se.metaepoch], hpc, rfl, fun hx => by simp [hs'] at hx,
-              fun hr => by simpa [f4] using se.refusedMono hr, Or.inr ⟨hs', ?_, hg, seeds, t1, hseeds, se, rfl⟩⟩
+              fun hr => by simpa [f4] using se.refusedMono hr, Or.inr ⟨hs', ?_, hg, seeds, t1, hseeds, se, hds, rfl⟩⟩
             simp [f5, se.gscSeen, hs']
   · simp at h
 
@@ -460,7 +461,7 @@ theorem step_ext {t t' : T} {ev : Ev} (h : step t ev = .ok t') : Ext t.demes t'.
   | localRun id reqs its nfev => exact ⟨t'.demes, [], by simp, (stepLocal_effect h).demes⟩
   | round ge renv news =>
     obtain ⟨_, _, _, _, _, _, hcase⟩ := stepRound_effect h
-    rcases hcase with ⟨hd, _, _⟩ | ⟨_, _, _, seeds, t1, _, se, rfl⟩
+    rcases hcase with ⟨hd, _, _, _⟩ | ⟨_, _, _, seeds, t1, _, se, _, rfl⟩
     · rw [hd]; exact Ext.refl _
     · obtain ⟨old, nd, hd, hf, _⟩ := se.demes
       have hu := updateHibernation_forall2 t1 (seeds.map (·.deme))
